@@ -8,21 +8,41 @@ def main(tier, args):
                    plain_srcs=[vf.VERIF + "/engine/sched/log_stub.cpp"])
     import os; sockdir = vf.BUILD + "/C06/sock"; os.makedirs(sockdir, exist_ok=True)
     depth, dl, maxdev, np = (6, 80, 1, 4) if tier == "quick" else (7, 1300, 2, 8)
-    tdepth, tnp = (5, 4) if tier == "quick" else (7, 8)
+    tdepth, tnp, tsub = (6, 4, 3) if tier == "quick" else (7, 4, 4)      # the root offers 4 operations; each is split again by the second operation
+    import os; dl = int(os.environ.get("C06_DEADLINE_S", dl))      # per-process deadline (a process that reaches it reports @CAP and exits 0)
     res = vf.Result(); log = open(vf.BUILD + "/C06/log.txt", "w")
     jobs = []
-    cfgs = [("bfd", 0, 0), ("bfd", 1, 1), ("bfd", 3, 3), ("bfd", 0, 2), ("tcp", 0, 0), ("tcp", 3, 1)]
+    # (mode, receive threshold, consumption policy 0 all/1 one byte/2 none/3 all-but-1, extra: cb= callback behaviour, ev= initialize() events, bind= bind/unbind ops, depth delta)
+    cfgs = [("bfd", 0, 0, [], 0), ("bfd", 1, 1, [], 0), ("bfd", 3, 3, [], 0), ("bfd", 0, 2, [], 0), ("tcp", 0, 0, [], 0), ("tcp", 3, 1, [], 0),
+            ("bfd", 0, 0, ["cb=1"], 0), ("bfd", 1, 3, ["cb=2"], 0), ("bfd", 0, 1, ["cb=3"], 0), ("tcp", 0, 3, ["cb=2"], -1), ("tcp", 0, 0, ["cb=3"], -1),
+            ("bfd", 0, 3, ["bind=1"], 0), ("tcp", 3, 1, ["bind=1"], -1), ("bfd", 0, 3, ["ev=1"], 0), ("bfd", 0, 0, ["ev=2"], -1)]
+    # server/client lane: (threshold, policy) for the server and both clients, rc=1 client 0 auto-reconnects, bind=1 client 1 forwards to a bound receiver
+    tcfgs = [["thr=0", "pol=0", "rc=0", "bind=0"], ["thr=3", "pol=3", "rc=1", "bind=1"]]
+    for e in ("epoll", "select"):      # longest jobs first
+        for targs in tcfgs:
+            for p in (0, 1, 3, 2):
+                for sp in range(tsub):
+                    jobs.append(("tcp:%s:%s:p%d.%d" % (e, ",".join(targs), p, sp), [tcp, e, str(tdepth), sockdir, str(p), str(tnp)] + targs + ["sub=%d/%d" % (sp, tsub)]))
     for e in ("epoll", "select"):
-        jobs.append(("bulk:%s" % e, [exe, "bulk", e]))
-        for p in range(tnp):
-            jobs.append(("tcp:%s:p%d" % (e, p), [tcp, e, str(tdepth), sockdir, str(p), str(tnp)]))
-        for (mode, thr, pol) in cfgs:
+        for (mode, thr, pol, extra, dd) in cfgs:
             for p in range(np):
-                jobs.append(("hist:%s:%s:thr%d:pol%d:p%d" % (e, mode, thr, pol, p), [exe, "hist", e, str(depth), mode, str(thr), str(pol), str(maxdev), str(p), str(np)]))
+                jobs.append(("hist:%s:%s:thr%d:pol%d:%s:p%d" % (e, mode, thr, pol, ",".join(extra) or "plain", p), [exe, "hist", e, str(depth + dd), mode, str(thr), str(pol), str(maxdev), str(p), str(np)] + extra))
+        jobs.append(("bulk:%s" % e, [exe, "bulk", e]))
+        jobs.append(("bulkrecv:%s" % e, [exe, "bulkrecv", e]))
     if args.only: jobs = [j for j in jobs if j[0].startswith(args.only)]
     vf.run_procs(res, jobs, env={"VERIF_DEADLINE_S": str(dl)}, log=log)
     vf.finish(PID, tier, res, t0,
-              rule="BFS (depth %d, canonical-state dedup) over all histories of send(1|2|5)/enable/disable/peer-read/peer-write/peer-close/loop-pass with <=%d injected I/O deviations (next write returns 1 byte, next write EAGAIN, next readv 1 byte) on the real BufferedFd and TcpConnection over a socketpair, "
-                   "both back-ends, receive threshold in {0,1,3} x consumption policy {all,1 byte,none,all-but-1}; after every history the loop is run to quiescence with the peer draining; byte-exact std::string reference for both directions; "
-                   "plus a TcpServer+TcpClient lane (real acceptor/connector over a unix-domain socket, 2 clients, client/server sends, client stop, server disconnect/stop, depth %d) and a bulk lane with real kernel back-pressure (64 KiB-2 MiB, SO_SNDBUF 4 KiB, sends before/after enable)" % (depth, maxdev, tdepth),
-              assumptions=["at raw BufferedFd level the harness disables the descriptor in its read-zero callback, as every in-tree user does (DESIGN 1.7)", "bytes below the receive threshold stay buffered (not counted as lost)"])
+              rule="(1) BFS (depth %d, canonical-state dedup incl. read index/capacity of both buffers) over all histories of send(1|2|5)/enable/disable/peer-read/peer-write/peer-close/loop-pass with <=%d injected I/O deviations "
+                   "(next write returns 1 byte, next write EAGAIN, next readv 1 byte) on the real BufferedFd and TcpConnection (there 'disable' = disconnect()) over a socketpair, both back-ends, %d configurations: receive threshold {0,1,3} x consumption policy "
+                   "{all,1 byte,none,all-but-1}; user callbacks that call back in (send-complete sends 2 bytes, receive callback echoes what it took, receive callback pauses the descriptor / disconnects the connection); bind()/unbind() to a recording "
+                   "receiver as extra operations; initialize(kReadOnly) and initialize(kWriteOnly) (some configurations one level shallower); only operations that change the model state are offered. After every history the loop is run to quiescence with the peer draining, "
+                   "then the callback is replaced on the live object (threshold 0, take all) and the peer writes one more byte: all unconsumed bytes must come again with it. Byte-exact std::string reference for both directions; shown/delivered/close "
+                   "clauses are decided by the reference model. (2) TcpServer+TcpClient lane (real acceptor/connector over a unix-domain socket, depth %d, 2 configurations: threshold/policy 0/all and 3/all-but-1, client 0 with auto-reconnect, client 1 bound "
+                   "to a receiver): objects go through several sessions - client stop/start, client 1 cleanup()+initialize(), peer-initiated disconnect, auto-reconnect, server stop/start with connections waiting in the listen queue, shutdown(SHUT_WR) "
+                   "from either side, late installation of callbacks inside the connected callback, per-connection send-complete against per-descriptor written counters, callback replacement at the end. (3) bulk lanes with real kernel back-pressure: "
+                   "sends of 64 KiB-2 MiB through SO_SNDBUF 4 KiB before/after enable; receives of 1024 B-1 MiB in two step sizes x threshold {0,1500} x {take all, all-but-1, nothing, forward to a second real BufferedFd with a slow reader} x enable before/after the data"
+                   % (depth, maxdev, len(cfgs), tdepth),
+              assumptions=["at raw BufferedFd level the harness disables the descriptor in its read-zero callback, as every in-tree user does (DESIGN 1.7)", "bytes below the receive threshold stay buffered (not counted as lost)",
+                           "while a receiver is bound, received bytes are due to the receiver instead of the callback; bytes that were already buffered below the threshold when bind() was called are only demanded once a later byte arrives",
+                           "after a user-side stop()/disconnect() nothing is demanded of bytes still queued on that side; a disconnected callback is expected only for a close/half-close made by the other side",
+                           "the kernel hands out unix-domain connections in connect() order, so the k-th server connected-callback belongs to the k-th connect(); sends in the server/client lane are small enough to be written through at once"])
